@@ -369,3 +369,151 @@ def checks(tier):
                bounds="an installed 3-object pack with one byte XOR 10/20/40/01/80 at any offset of the object area (symbolic); "
                       "every object looked up through the store", outside="index damage; multi-bit damage", tiers=q),
     ]
+
+
+# ---------------------------------------------------------------------------------------------
+# (e) crafted delta graphs: bases redirected to themselves, to later entries, in cycles, across OFS/REF kinds
+_b04 = checks
+
+
+class _Hang(BaseException):
+    pass
+
+
+def _with_watchdog(seconds, fn):
+    import signal
+
+    def on_alarm(*a):
+        raise _Hang()
+    old = signal.signal(signal.SIGALRM, on_alarm)
+    signal.setitimer(signal.ITIMER_REAL, seconds)
+    try:
+        return fn()
+    finally:
+        signal.setitimer(signal.ITIMER_REAL, 0)
+        signal.signal(signal.SIGALRM, old)
+
+
+def h_delta_graph(eng, n=2, installed=True):
+    """a pack of one full blob and n delta entries whose kind (OFS/REF) and base (any entry, itself included; for OFS any
+    entry up to itself) are solver-forked, with a matching index: every lookup terminates, fails with an ordinary error
+    or returns the bytes the delta graph denotes; ingestion of the same pack leaves no trace unless every object resolves"""
+    import binascii
+    import hashlib
+    import struct
+    from dulwich.pack import write_pack_index_v2, UnresolvedDeltas
+    base = b"base content\n"
+    kinds = [eng.choice(f"kind{i}", 2) for i in range(1, n + 1)]            # 0 OFS, 1 REF
+    bases = [eng.choice(f"base{i}", (i + 1) if kinds[i - 1] == 0 else (n + 1)) for i in range(1, n + 1)]
+    # what each entry denotes (None if its chain never reaches the full object)
+    content = {0: base}
+    for _ in range(n + 1):
+        for i in range(1, n + 1):
+            b = bases[i - 1]
+            if i not in content and b in content and b != i:
+                content[i] = content[b] + b"+%d" % i
+    def name(i):
+        if i in content:
+            return hashlib.sha1(b"blob %d\0" % len(content[i]) + content[i]).digest()
+        return hashlib.sha1(b"unresolvable %d" % i).digest()
+
+    def delta_for(i):
+        b = bases[i - 1]
+        src = content.get(b, base)
+        ins = b"+%d" % i
+        return bytes([len(src), len(src) + len(ins), 0x90, len(src), len(ins)]) + ins
+    # lay the entries out; OFS needs the base's offset, REF its name
+    offs = {}
+    body = bytearray(b"PACK" + struct.pack(">LL", 2, n + 1))
+    raws = {}
+
+    def put(i, type_num, payload, prefix=b""):
+        offs[i] = len(body)
+        size = len(payload)
+        c = (type_num << 4) | (size & 0x0F)
+        size >>= 4
+        hdr = bytearray()
+        while size:
+            hdr.append(c | 0x80)
+            c = size & 0x7F
+            size >>= 7
+        hdr.append(c)
+        raws[i] = bytes(hdr) + prefix + zlib.compress(payload)
+        body.extend(raws[i])
+    put(0, 3, base)
+    for i in range(1, n + 1):
+        b = bases[i - 1]
+        if kinds[i - 1] == 0:
+            dist = len(body) - offs[b] if b != i else 0
+            enc = bytearray([dist & 0x7F])
+            dist >>= 7
+            while dist:
+                dist -= 1
+                enc.insert(0, 0x80 | (dist & 0x7F))
+                dist >>= 7
+            put(i, 6, delta_for(i), bytes(enc))
+        else:
+            put(i, 7, delta_for(i), name(b))
+    pack = bytes(body) + hashlib.sha1(body).digest()
+    tag = f"[kinds={['OFS' if k == 0 else 'REF' for k in kinds]} bases={bases}]"
+    ok_errors = (KeyError, ValueError, AssertionError, OSError, zlib.error, ChecksumMismatch, ApplyDeltaError, ObjectFormatException,
+                 EOFError, UnresolvedDeltas, RecursionError)
+    d = scratch("c04e")
+    try:
+        r = Repo.init_bare(d)
+        if installed:
+            pdir = os.path.join(d, "objects", "pack")
+            stem = os.path.join(pdir, "pack-" + hashlib.sha1(pack).hexdigest())
+            with open(stem + ".pack", "wb") as f:
+                f.write(pack)
+            ents = sorted((name(i), offs[i], binascii.crc32(raws[i]) & 0xFFFFFFFF) for i in range(n + 1))
+            with open(stem + ".idx", "wb") as f:
+                write_pack_index_v2(f, ents, hashlib.sha1(body).digest())
+            for i in range(n + 1):
+                hexname = binascii.hexlify(name(i))
+                try:
+                    got = _with_watchdog(5.0, lambda: r.object_store.get_raw(hexname))
+                except _Hang:
+                    eng.fail(f"{tag} lookup of entry {i} does not terminate (delta cycle)")
+                    continue
+                except Exception as e:
+                    eng.prove(isinstance(e, ok_errors), f"{tag} lookup of entry {i} fails with an ordinary error ({type(e).__name__})")
+                    eng.prove(i not in content, f"{tag} entry {i} resolves in the delta graph, so its lookup must succeed ({type(e).__name__}: {e})")
+                    continue
+                eng.prove(i in content and got == (3, content[i]), f"{tag} entry {i}: returned bytes are what the delta graph denotes")
+        else:
+            before = _visible(r.object_store)
+            try:
+                _with_watchdog(10.0, lambda: _ingest(r.object_store, pack, "add_pack"))
+                err = None
+            except _Hang:
+                eng.fail(f"{tag} ingestion does not terminate")
+                return
+            except Exception as e:
+                err = e
+            if err is not None:
+                eng.prove(isinstance(err, ok_errors), f"{tag} ingestion fails with an ordinary error ({type(err).__name__})")
+                eng.prove(_visible(r.object_store) == before and not [f for f in _packdir(d) if not f.endswith(".keep")],
+                          f"{tag} refused pack leaves no trace: {_packdir(d)}")
+            else:
+                eng.prove(len(content) == n + 1, f"{tag} a pack with an unresolvable delta was accepted")
+                for s in _visible(r.object_store):
+                    o = r.object_store[s]
+                    eng.prove(o.id == s, f"{tag} every ingested object hashes to its name")
+        r.close()
+    finally:
+        shutil.rmtree(d, ignore_errors=True)
+
+
+def checks(tier):
+    q = ("quick", "thorough")
+    return _b04(tier) + [
+        KCheck("C04e.delta_graph", h_delta_graph, parts=[{"n": n, "installed": ins} for n in (1, 2, 3) for ins in (True, False)],
+               encoded=["dulwich.pack.Pack.get_raw/resolve_object/get_ref", "dulwich.pack.PackData.get_object_at",
+                        "dulwich.pack.DeltaChainIterator/PackIndexer (ingestion)", "dulwich.object_store.DiskObjectStore.add_pack"],
+               bounds="a pack of one full blob and 1-3 delta entries; every entry's kind (OFS / REF) and base (any entry including "
+                      "itself and later ones for REF; any earlier entry or itself, i.e. distance 0, for OFS) symbolic: self "
+                      "references, 2- and 3-cycles, mixed OFS/REF cycles, chains into cycles; installed with a matching index "
+                      "(every lookup under a 5 s watchdog) or ingested through add_pack",
+               outside="cycles through more than 3 deltas or across several packs; thin packs", tiers=q),
+    ]
